@@ -20,6 +20,7 @@ KEYS = ['a', 'b', 'c', 'd']
 KIDX = {k: i for i, k in enumerate(KEYS)}
 
 TOYS_SRC = r'''
+import cloudpickle
 from forml import flow
 from forml.pipeline import wrap
 
@@ -116,6 +117,35 @@ class _Stateless:
         return applyfn0(self.get_params(), x)
 
 
+class _Hidden(_Fixed):
+    """a constructor argument (c) that is configuration, not a hyper-parameter: get_params/set_params cover a
+    subset of the constructor arguments (explicitly allowed by the flow.Actor.set_params documentation)."""
+
+    def __init__(self, a=1, b=0, c=0):
+        super().__init__(a, b)
+        self.c = c
+
+    def _all(self):
+        return {'a': self.a, 'b': self.b, 'c': self.c}
+
+    def fit(self, x, y):
+        self.s = trainfn(self._all(), self.s, x, y)
+
+    def predict(self, x):
+        if self.s is None:
+            raise RuntimeError('Actor not trained')
+        return applyfn(self._all(), self.s, x)
+
+
+class _HiddenStateless(_Stateless):
+    def __init__(self, a=1, b=0, c=0):
+        super().__init__(a, b)
+        self.c = c
+
+    def predict(self, x):
+        return applyfn0({'a': self.a, 'b': self.b, 'c': self.c}, x)
+
+
 # ---- native flavour ------------------------------------------------------------------------------
 class NativeFixed(_Fixed, flow.Actor):
     train = _Fixed.fit
@@ -141,6 +171,25 @@ class NativeMand(_Mand, flow.Actor):
 class NativeStateless(_Stateless, flow.Actor):
     def apply(self, x):
         return self.predict(x)
+
+
+class NativeHidden(_Hidden, flow.Actor):
+    train = _Hidden.fit
+    apply = _Hidden.predict
+
+
+class NativeCustom(_Fixed, flow.Actor):
+    """user-written state methods, the naive way: nothing is preserved by the actor itself."""
+
+    train = _Fixed.fit
+    apply = _Fixed.predict
+
+    def get_state(self):
+        return cloudpickle.dumps(self.__dict__)
+
+    def set_state(self, state):
+        if state:
+            self.__dict__.update(cloudpickle.loads(state))
 
 
 # ---- decorated flavour ---------------------------------------------------------------------------
@@ -240,12 +289,22 @@ class OriginFlag(_Stateless):
     fit = True  # an attribute that is not a training implementation
 
 
+class OriginHidden(_Hidden):
+    pass
+
+
+class OriginHiddenStateless(_HiddenStateless):
+    pass
+
+
 WrapNamesFixed = wrap.Actor.type(OriginFixed, apply='predict', train='fit')
 WrapCallsOpen = wrap.Actor.type(OriginOpen, apply=_infer, train=_learn, get_params=_hp, set_params=_configure)
 WrapTrainCall = wrap.Actor.type(OriginFixed, apply='predict', train=_fit)
 WrapNamesMand = wrap.Actor.type(OriginMand, apply='predict', train='fit')
 WrapNoTrain = wrap.Actor.type(OriginStateless, apply='predict')
 WrapFlag = wrap.Actor.type(OriginFlag, apply='predict', train='fit')
+WrapHidden = wrap.Actor.type(OriginHidden, apply='predict', train='fit')
+WrapHiddenStateless = wrap.Actor.type(OriginHiddenStateless, apply='predict')
 
 
 @wrap.Actor.type
@@ -259,13 +318,14 @@ class WrapDefault(_Fixed):
 FIXED = dict(pos=[0, 1], kw=[], varkw=False, mand=[], defaults={0: 1, 1: 0})
 FIXED_KW = dict(pos=[], kw=[0, 1], varkw=False, mand=[], defaults={})
 OPEN = dict(pos=[], kw=[], varkw=True, mand=[], defaults={})
+HIDDEN = dict(pos=[0, 1, 2], kw=[], varkw=False, mand=[], defaults={0: 1, 1: 0, 2: 0}, hidden=[2])
 
 
 class Toy(typing.NamedTuple):
     name: str
-    kind: str  # native | decorated | wrapped
+    kind: str  # native | custom | decorated | wrapped
     sig: dict
-    flag: typing.Any  # native: has train; decorated: pair; wrapped: train-map kind
+    flag: typing.Any  # native: has train; custom: -; decorated: pair; wrapped: train-map kind
     trains: bool  # spec side: the definition has a training implementation
     store_all: bool  # constructor stores defaults|bound (True) or just the kwargs (False)
     std_pickle: bool  # instances of the importable definition can go through stdlib pickle
@@ -273,12 +333,30 @@ class Toy(typing.NamedTuple):
 
     def flavour(self):
         s = self.sig
-        sg = [s['pos'], s['kw'], s['varkw'], s['mand'], [[k, v] for k, v in sorted(s['defaults'].items())]]
+        sg = [s['pos'], s['kw'], s['varkw'], s['mand'], [[k, v] for k, v in sorted(s['defaults'].items())], self.hidden()]
+        if self.kind == 'custom':
+            return [self.kind, sg]
         flag = self.flag if self.kind == 'wrapped' else bool(self.flag)
         return [self.kind, sg, flag]
 
+    def hidden(self):
+        return list(self.sig.get('hidden', []))
+
     def allowed(self):
+        """names the constructor accepts"""
         return [0, 1, 2, 3] if self.sig['varkw'] else sorted(self.sig['pos'] + self.sig['kw'])
+
+    def settable(self):
+        """names that are hyper-parameters (reported by get_params, accepted by set_params)"""
+        return [k for k in self.allowed() if k not in self.hidden()]
+
+    def vis(self, d: dict) -> dict:
+        return {k: v for k, v in d.items() if k not in self.hidden()}
+
+    @property
+    def own_state(self) -> bool:
+        """False: the actor's state methods are user-written and preserve nothing (only SetState.set does)"""
+        return self.kind != 'custom'
 
 
 TOYS = [
@@ -286,6 +364,8 @@ TOYS = [
     Toy('NativeOpen', 'native', OPEN, True, True, False, True),
     Toy('NativeMand', 'native', dict(pos=[0, 1], kw=[], varkw=True, mand=[0], defaults={1: 0}), True, True, True, True),
     Toy('NativeStateless', 'native', FIXED, False, False, True, True),
+    Toy('NativeHidden', 'native', HIDDEN, True, True, True, True),
+    Toy('NativeCustom', 'custom', FIXED, True, True, True, True),
     Toy('DecoStatelessFixed', 'decorated', FIXED_KW, False, False, False, True),
     Toy('DecoStatelessOpen', 'decorated', OPEN, False, False, False, True),
     Toy('DecoPairFixed', 'decorated', FIXED_KW, True, True, False, True),
@@ -299,6 +379,8 @@ TOYS = [
     Toy('WrapNoTrain', 'wrapped', FIXED, 'absent', False, True, False),
     Toy('WrapFlag', 'wrapped', FIXED, 'noncallable', False, True, False, root='wrapped-stateful-noncallable-attr'),
     Toy('WrapDefault', 'wrapped', FIXED, 'method', True, True, False, root='wrapped-empty-mapping'),
+    Toy('WrapHidden', 'wrapped', HIDDEN, 'method', True, True, False),
+    Toy('WrapHiddenStateless', 'wrapped', HIDDEN, 'absent', False, True, False, root='pickle-wrapped-hidden-ctor-arg'),
 ]
 TOY = {t.name: t for t in TOYS}
 
@@ -390,6 +472,10 @@ def run_real(toy: Toy, module: str, pickler: str, ops: list) -> list:
                 out.append(('ok',))
             elif o == 'stateful':
                 out.append(('ok', bool(cls.is_stateful())))
+            elif o == 'forge':
+                # somebody else's non-empty state: an attribute dict (only given to actors without training)
+                blobs[op[1]] = cloudpickle.dumps({**pyk(op[2]), 's': None})
+                out.append(('ok',))
             elif o in ('fapply', 'ftrain'):
                 if builder is None:
                     out.append(('err', 'NoObject'))
@@ -475,8 +561,8 @@ class Scenario:
     def sup(self, idx, expected: dict, what, sig):
         self.checks.append(['sup', idx, expected, what, sig])
 
-    def applyp(self, idx, pidx, state, x, what, sig):
-        self.checks.append(['applyp', idx, pidx, state, x, what, sig])
+    def applyp(self, idx, pidx, state, x, extra, what, sig):
+        self.checks.append(['applyp', idx, pidx, state, x, {str(k): v for k, v in extra.items()}, what, sig])
 
     def iserr(self, idx, what, sig):
         self.checks.append(['iserr', idx, what, sig])
@@ -516,7 +602,8 @@ def eval_check(chk: list, obs: list) -> typing.Optional[str]:
         got, par = norm(obs[chk[1]]), norm(obs[chk[2]])
         if par[0] != 'ok' or not isinstance(par[1], dict):
             return f'op#{chk[2]} gave {par}'
-        want = ('ok', spec_apply(par[1], chk[3], chk[4]))
+        attrs = {**{int(k): v for k, v in chk[5].items()}, **par[1]}
+        want = ('ok', spec_apply(attrs, chk[3], chk[4]))
         return None if got == want else f'op#{chk[1]} gave {got}, expected {want} for the reported hyper-parameters {par[1]}'
     if kind == 'iserr':
         return None if obs[chk[1]][0] == 'err' else f'op#{chk[1]} succeeded: {obs[chk[1]]}'
@@ -527,30 +614,43 @@ class C13(fw.Check):
     ID = 'C13'
     LEAN_MODULES = ['ForML.Props.C13']
     DRIVER = 'drv_c13'
-    RULE = ('scenario = actor definition (16 toy definitions: native class fixed/open/mandatory/stateless, '
-            '@wrap.Actor.apply fixed/open, .train/.apply pair fixed/open/mandatory, wrap.Actor.type with method names, '
-            'callables for all four methods, callable train only, mandatory ctor arg, no train, non-callable train '
-            'attribute, parameterless decorator) x definition site (importable module / unregistered module = '
-            'cloudpickle by value) x pickler (cloudpickle; stdlib pickle for importable native/decorated) x random '
-            'hyper-parameter dict over keys a..d, 0-3 Builder.update/reset (+positional) x training history h1 (1-6 '
-            'pairs), continuation h2 (0-4), parameter update q, inputs; script of 25-60 ops through builder, actor, '
-            'SetState preset and Functor.execute; every op\'s observation is compared with the Lean model; the oracle '
+    RULE = ('scenario = actor definition (21 toy definitions: native class fixed/open/mandatory/stateless/with a constructor '
+            'argument that is not a hyper-parameter/with user-written naive get_state+set_state, @wrap.Actor.apply fixed/open, '
+            '.train/.apply pair fixed/open/mandatory, wrap.Actor.type with method names, callables for all four methods '
+            '(nested delegate), callable train only, mandatory ctor arg, no train, non-callable train attribute, parameterless '
+            'decorator, non-hyper-parameter ctor arg with and without train) x definition site (importable module / '
+            'unregistered module = cloudpickle by value) x pickler (cloudpickle; stdlib pickle for importable native/decorated) '
+            'x random hyper-parameter dict over keys a..d, 0-3 Builder.update/reset (+positional). Three structured scripts '
+            '(25-70 ops through builder, actor, SetState preset and Functor.execute): (1) twin trained on h1 (1-6 pairs), '
+            'transfer, continuation h2 (0-4), precedence against a differently parameterised builder and against a '
+            're-parameterised twin, pickling; (2) set_params interleaved with training on the twin and followed by '
+            'Builder.update, transfer to an actor rebuilt from the updated builder, joint continuation with further updates '
+            'and pickling in between, a second generation through Functor; (3) actors without training: empty and foreign '
+            'non-empty state, set_params, pickling. Every op\'s observation is compared with the Lean model; the oracle '
             'checks expected values computed from the toy arithmetic and relational checks (transfer, precedence, empty '
-            'state, pickle, is_stateful). Plus a random op-stream incl. malformed ops (unknown keys, positional '
-            'overflow, state on stateless, untrained apply). distinct = (toy, ops); non-trivial = at least one training '
-            'step and one state transfer, or (stateless) one parameter change.')
+            'state, pickle, is_stateful). Plus a random op-stream incl. malformed ops (unknown keys, non-hyper-parameter '
+            'keys, positional overflow, state on stateless, untrained apply). distinct = (toy, ops); non-trivial = at least '
+            'one training step and one state transfer, or (stateless) one parameter change.')
     TRUSTED = [
         'cloudpickle / pickle fidelity for plain attribute dicts (modelled as identity), inspect.signature binding rules '
-        '(modelled by bind/bindPartial for the signature shapes used), functools.update_wrapper metadata',
+        '(modelled by bind/bindPartial for the signature shapes used), functools.update_wrapper metadata, '
+        'functools.partial pickling',
         'toy actors: the integer functions in harness/props/c13.py TOYS_SRC and toyApply/toyApply0/toyTrain in the model '
         'are the same by inspection (and by the correspondence itself)',
     ]
     ASSUMPTIONS = [
         'user train functions never return None (a None state of a decorated pair means "untrained" again)',
-        'user classes keep their hyper-parameters and one state attribute in __dict__; get_params/set_params are '
-        'consistent (set then get returns what was set)',
-        'wrapped flavour is modelled with the proposed repairs of Class.__new__ (empty mapping) and '
-        'Class.Actor.is_stateful (callable check) applied',
+        'user classes keep their constructor arguments and one state attribute in __dict__; get_params/set_params are '
+        'consistent on the hyper-parameters (set then get returns what was set) and may cover a subset of the constructor '
+        'arguments only',
+        'hyper-parameter = what the actor reports through get_params: a constructor argument that the actor does not '
+        'report travels with the state of a class-based actor (proved as part of C13_transfer, not demanded to come from '
+        'the builder)',
+        'an actor with user-written state methods that preserve nothing is protected by the platform path '
+        '(SetState.set) only; precedence on a direct set_state call is demanded only of forml\'s own state methods',
+        'wrapped flavour is modelled with the repairs of Class.__new__ (empty mapping, c5871cf), Class.Actor.is_stateful '
+        '(callable check, 146ab51) and of the copyreg reducer (constructor arguments, fixes/C13-wrapped-pickle-ctor-args.diff) '
+        'applied',
     ]
 
     # ---- generators ---------------------------------------------------------------------------------
@@ -620,33 +720,59 @@ class C13(fw.Check):
             sc.val(i, None, f'builder does not survive {sc.pickler}', 'pickle-builder-fails')
         return args, kw
 
+    def _call_override(self, sc: Scenario, toy: Toy, args: list, kw: dict) -> None:
+        """builder(*args2, **kw2): positionals replace the stored ones if given, keywords update them (as Builder.update)."""
+        rng = self.rng
+        args2: list = []
+        if toy.sig['pos'] and rng.random() < 0.6:
+            npos = rng.randint(1, len(toy.sig['pos']))
+            if not any(k in kw for k in toy.sig['pos'][:npos]):
+                args2 = [rng.randint(-3, 5) for _ in range(npos)]
+        eff = args2 or args
+        kw2 = self._kw(toy, lo=0, hi=2, avoid=toy.sig['pos'][:len(eff)])
+        if not args2 and not kw2:
+            return
+        sc.val(sc.op('build', 3, args2, kw2), None, 'builder(*args, **kwargs) with valid overrides failed', 'build-fails')
+        sc.val(sc.op('params', 3), toy.vis(self._expected_params(toy, eff, {**kw, **kw2})),
+               'builder(*args, **kwargs) does not replace the positionals / update the keywords', 'build-params')
+
     def _hist(self, lo, hi):
         return [(self.rng.randint(-4, 6), self.rng.randint(-4, 6)) for _ in range(self.rng.randint(lo, hi))]
 
-    def _stateful_scenario(self, toy: Toy) -> Scenario:
+    def _stateful_scenario(self, toy: Toy, zero: bool = False) -> Scenario:
+        """zero: the twin's trained state is the integer 0 (a falsy but genuine state)."""
         rng = self.rng
         module, pickler = self._pick_site(toy)
         sc = Scenario(toy, module, pickler)
         args, kw = self._builder_prefix(sc, toy)
-        E = self._expected_params(toy, args, kw)
+        E = self._expected_params(toy, args, kw)  # every attribute; toy.vis(E) = the reported hyper-parameters
+        V = toy.vis(E)
+        hid = {k: v for k, v in E.items() if k in toy.hidden()}
         xs = [rng.randint(-5, 7) for _ in range(2)]
         sc.val(sc.op('stateful'), True, 'is_stateful() is not True although the definition has a training implementation',
                'stateful-mismatch')
         sc.val(sc.op('build', 0, [], {}), None, 'builder() failed', 'build-fails')
-        sc.val(sc.op('params', 0), E, 'fresh actor does not report the builder\'s hyper-parameters', 'build-params')
+        sc.val(sc.op('params', 0), V, 'fresh actor does not report the builder\'s hyper-parameters', 'build-params')
+        if rng.random() < 0.4:
+            self._call_override(sc, toy, args, kw)
         # empty state leaves the actor untrained
         before = sc.op('apply', 0, xs[0])
         sc.iserr(before, 'untrained actor applies', 'toy-untrained-applies')
         sc.val(sc.op('setempty', 0), None, 'set_state(b\'\') failed', 'empty-state')
         sc.same(sc.op('apply', 0, xs[0]), before, 'actor is not untrained after an empty state', 'empty-state')
-        sc.val(sc.op('params', 0), E, 'empty state changed the hyper-parameters', 'empty-state')
+        sc.val(sc.op('params', 0), V, 'empty state changed the hyper-parameters', 'empty-state')
         sc.val(sc.op('preset', 0, 3), None, 'SetState preset with an empty state failed', 'empty-state')
         sc.same(sc.op('apply', 0, xs[0]), before, 'actor is not untrained after an empty state preset', 'empty-state')
         # train the twin
         h1 = self._hist(1, 6)
+        if zero:
+            h1 = h1[:rng.randint(1, 2)]
+            x = h1[-1][0]
+            h1[-1] = (x, h1[-1][1] - spec_fold(E, None, h1))  # the state is linear in the last label: make it 0
         for x, y in h1:
             sc.val(sc.op('train', 0, x, y), None, 'train failed', 'train-fails')
         S1 = spec_fold(E, None, h1)
+        assert not zero or S1 == 0
         twin = []
         for x in xs:
             i = sc.op('apply', 0, x)
@@ -657,7 +783,7 @@ class C13(fw.Check):
         how = rng.choice(['setstate', 'preset'])
         sc.val(sc.op('build', 1, [], {}), None, 'builder() failed', 'build-fails')
         sc.val(sc.op(how, 1, 0), None, f'{how} of the twin\'s state failed', 'transfer-fails')
-        sc.val(sc.op('params', 1), E, 'state transfer changed the hyper-parameters supplied by the builder',
+        sc.val(sc.op('params', 1), V, 'state transfer changed the hyper-parameters supplied by the builder',
                'params-precedence')
         for x, t in zip(xs, twin):
             sc.same(sc.op('apply', 1, x), t, 'rebuilt actor with the twin\'s state behaves differently from the twin',
@@ -683,31 +809,35 @@ class C13(fw.Check):
             sc.same(sc.op('fapply', 2, xs[1]), a0,
                     'generation-by-generation training through Functor differs from training one actor', 'transfer-differs')
         # precedence: a builder with other hyper-parameters receives the twin's (h1) state
+        # (only hyper-parameters are changed: a constructor argument that the actor does not report travels with the state)
         posbound = toy.sig['pos'][:len(args)]
-        q = self._kw(toy, lo=1, hi=3, avoid=posbound)
+        q = self._kw(toy, lo=1, hi=3, avoid=posbound + toy.hidden())
         q = {k: (v if E.get(k) != v else v + 1) for k, v in q.items()}
         sc.val(sc.op('update', [], q), None, 'Builder.update with valid hyper-parameters failed', 'builder-update')
         E2 = self._expected_params(toy, args, {**kw, **q})
+        V2 = toy.vis(E2)
+        # an actor with user-written state methods is protected by the platform's preset only
+        give = (lambda: rng.choice(['setstate', 'preset'])) if toy.own_state else (lambda: 'preset')
         sc.val(sc.op('build', 2, [], {}), None, 'builder() failed', 'build-fails')
-        sc.val(sc.op(rng.choice(['setstate', 'preset']), 2, 0), None, 'transfer of the twin\'s state failed', 'transfer-fails')
-        sc.sup(sc.op('params', 2), E2, 'hyper-parameters stored inside the state override the builder\'s',
+        sc.val(sc.op(give(), 2, 0), None, 'transfer of the twin\'s state failed', 'transfer-fails')
+        sc.sup(sc.op('params', 2), V2, 'hyper-parameters stored inside the state override the builder\'s',
                'params-precedence')
         # behaviour = the toy arithmetic on the hyper-parameters the actor reports and the twin's state
         p2 = len(sc.ops) - 1
-        sc.applyp(sc.op('apply', 2, xs[0]), p2, S1, xs[0],
+        sc.applyp(sc.op('apply', 2, xs[0]), p2, S1, xs[0], hid,
                   'actor with the builder\'s hyper-parameters and the twin\'s state gives an unexpected result', 'params-precedence')
         # the twin's own parameters are changed afterwards; the builder's still win on transfer
-        q2 = self._kw(toy, lo=1, hi=2)
+        q2 = self._kw(toy, lo=1, hi=2, avoid=toy.hidden())
         sc.val(sc.op('setparams', 0, q2), None, 'set_params with valid hyper-parameters failed', 'set-params')
         sc.op('getstate', 0, 1)
         sc.val(sc.op('build', 3, [], {}), None, 'builder() failed', 'build-fails')
-        sc.val(sc.op('setstate', 3, 1), None, 'transfer of the twin\'s state failed', 'transfer-fails')
-        sc.sup(sc.op('params', 3), E2, 'hyper-parameters stored inside the state override the builder\'s',
+        sc.val(sc.op(give(), 3, 1), None, 'transfer of the twin\'s state failed', 'transfer-fails')
+        sc.sup(sc.op('params', 3), V2, 'hyper-parameters stored inside the state override the builder\'s',
                'params-precedence')
         # pickling of the trained twin (reg 1 still has params E and state S12)
         p_before = sc.op('params', 1)
         a_before = sc.op('apply', 1, xs[0])
-        root = 'pickle-wrapped-mandatory-ctor' if toy.root == 'pickle-wrapped-mandatory-ctor' else 'pickle-actor-fails'
+        root = toy.root if (toy.root or '').startswith('pickle-') else 'pickle-actor-fails'
         sc.val(sc.op('pickle', 1), None, f'trained actor does not survive {pickler}', root)
         sc.same(sc.op('params', 1), p_before, 'pickling changed the hyper-parameters', 'pickle-actor-differs')
         sc.same(sc.op('apply', 1, xs[0]), a_before, 'pickling changed the behaviour', 'pickle-actor-differs')
@@ -717,7 +847,7 @@ class C13(fw.Check):
                'training after pickling diverges', 'pickle-actor-differs')
         sc.val(sc.op('bpickle'), None, f'builder does not survive {pickler}', 'pickle-builder-fails')
         sc.val(sc.op('build', 3, [], {}), None, 'pickled builder() failed', 'pickle-builder-fails')
-        sc.val(sc.op('params', 3), E2, 'pickled builder creates an actor with other hyper-parameters', 'pickle-builder-differs')
+        sc.val(sc.op('params', 3), V2, 'pickled builder creates an actor with other hyper-parameters', 'pickle-builder-differs')
         return sc
 
     def _stateless_scenario(self, toy: Toy) -> Scenario:
@@ -730,7 +860,9 @@ class C13(fw.Check):
         sc.val(sc.op('stateful'), False, 'is_stateful() is True although the definition has no training implementation',
                'stateful-mismatch')
         sc.val(sc.op('build', 0, [], {}), None, 'builder() failed', 'build-fails')
-        sc.val(sc.op('params', 0), E, 'fresh actor does not report the builder\'s hyper-parameters', 'build-params')
+        sc.val(sc.op('params', 0), toy.vis(E), 'fresh actor does not report the builder\'s hyper-parameters', 'build-params')
+        if rng.random() < 0.4:
+            self._call_override(sc, toy, args, kw)
         a = sc.op('apply', 0, xs[0])
         sc.val(a, spec_apply0(E, xs[0]), 'stateless actor output differs from the toy arithmetic', 'toy-apply')
         sc.iserr(sc.op('train', 0, 1, 2), 'actor without a training implementation trains', 'stateless-trains')
@@ -739,16 +871,88 @@ class C13(fw.Check):
         sc.val(sc.op('preset', 0, 0), None, 'SetState preset with an empty state failed', 'empty-state')
         sc.same(sc.op('apply', 0, xs[0]), a, 'empty state changed the behaviour', 'empty-state')
         sc.same(sc.op('fapply', 0, xs[0]), a, 'Functor with an empty state preset behaves differently', 'empty-state')
-        q = self._kw(toy, lo=1, hi=2)
+        # somebody else's non-empty state: whatever the actor answers (it has nothing to keep it in), its
+        # hyper-parameters and behaviour stay
+        if rng.random() < 0.7:
+            sc.op('forge', 1, self._kw(toy, lo=1, hi=2, avoid=toy.hidden()))
+            sc.op(rng.choice(['setstate', 'preset']), 0, 1)
+            sc.val(sc.op('params', 0), toy.vis(E), 'a foreign state changed the hyper-parameters of an actor without training',
+                   'params-precedence')
+            sc.same(sc.op('apply', 0, xs[0]), a, 'a foreign state changed the behaviour of an actor without training',
+                    'params-precedence')
+        q = self._kw(toy, lo=1, hi=2, avoid=toy.hidden())
         sc.val(sc.op('setparams', 0, q), None, 'set_params with valid hyper-parameters failed', 'set-params')
         sc.val(sc.op('apply', 0, xs[1]), spec_apply0({**E, **q}, xs[1]), 'set_params is not reflected by apply', 'set-params')
         p_before = sc.op('params', 0)
+        root = toy.root if (toy.root or '').startswith('pickle-') else None
         sc.val(sc.op('pickle', 0), None, f'actor does not survive {pickler}', 'pickle-actor-fails')
         sc.same(sc.op('params', 0), p_before, 'pickling changed the hyper-parameters', 'pickle-actor-differs')
-        sc.val(sc.op('apply', 0, xs[1]), spec_apply0({**E, **q}, xs[1]), 'pickling changed the behaviour', 'pickle-actor-differs')
+        sc.val(sc.op('apply', 0, xs[1]), spec_apply0({**E, **q}, xs[1]), 'pickling changed the behaviour',
+               root or 'pickle-actor-differs')
         sc.val(sc.op('bpickle'), None, f'builder does not survive {pickler}', 'pickle-builder-fails')
         sc.val(sc.op('build', 1, [], {}), None, 'pickled builder() failed', 'pickle-builder-fails')
         sc.same(sc.op('apply', 1, xs[0]), a, 'pickled builder creates a differently behaving actor', 'pickle-builder-differs')
+        return sc
+
+    def _interleaved_scenario(self, toy: Toy) -> Scenario:
+        """Hyper-parameter updates interleaved with training on the twin, followed by the builder (Builder.update per
+        set_params); then state transfer to an actor rebuilt from the updated builder, continued training of both with
+        further updates, a second transfer and pickling in between."""
+        rng = self.rng
+        module, pickler = self._pick_site(toy)
+        sc = Scenario(toy, module, pickler)
+        args, kw = self._builder_prefix(sc, toy)
+        posbound = toy.sig['pos'][:len(args)]
+        E = self._expected_params(toy, args, kw)
+        S = None
+        xs = [rng.randint(-5, 7) for _ in range(2)]
+        sc.val(sc.op('build', 0, [], {}), None, 'builder() failed', 'build-fails')
+        give = (lambda: rng.choice(['setstate', 'preset'])) if toy.own_state else (lambda: 'preset')
+
+        def life(regs, lo, hi):
+            nonlocal E, S, kw
+            for _ in range(rng.randint(lo, hi)):
+                if rng.random() < 0.6 or S is None:
+                    x, y = rng.randint(-4, 6), rng.randint(-4, 6)
+                    for r in regs:
+                        sc.val(sc.op('train', r, x, y), None, 'train failed', 'train-fails')
+                    S = spec_train(E, S, x, y)
+                else:
+                    q = self._kw(toy, lo=1, hi=2, avoid=posbound + toy.hidden())
+                    for r in regs:
+                        sc.val(sc.op('setparams', r, q), None, 'set_params with valid hyper-parameters failed', 'set-params')
+                    sc.val(sc.op('update', [], q), None, 'Builder.update with valid hyper-parameters failed', 'builder-update')
+                    kw = {**kw, **q}
+                    E = {**E, **q}
+                    if rng.random() < 0.3:
+                        r = rng.choice(regs)
+                        sc.val(sc.op('pickle', r), None, f'trained actor does not survive {pickler}',
+                               toy.root if (toy.root or '').startswith('pickle-') else 'pickle-actor-fails')
+
+        life([0], 2, 7)
+        twin = []
+        for x in xs:
+            i = sc.op('apply', 0, x)
+            sc.val(i, spec_apply(E, S, x), 'trained and re-parameterised actor output differs from the toy arithmetic', 'toy-apply')
+            twin.append(i)
+        sc.val(sc.op('params', 0), toy.vis(E), 'set_params is not reflected by get_params', 'set-params')
+        sc.val(sc.op('getstate', 0, 0), 'full', 'trained actor exports an empty state', 'trained-state-empty')
+        sc.val(sc.op('build', 1, [], {}), None, 'updated builder() failed', 'build-fails')
+        sc.val(sc.op(give(), 1, 0), None, 'transfer of the twin\'s state failed', 'transfer-fails')
+        sc.val(sc.op('params', 1), toy.vis(E), 'actor rebuilt from the updated builder does not report the builder\'s hyper-parameters '
+               'after the state transfer', 'params-precedence')
+        for x, t in zip(xs, twin):
+            sc.same(sc.op('apply', 1, x), t, 'actor rebuilt from the updated builder with the twin\'s state behaves differently '
+                    'from the twin', 'transfer-differs')
+        # both live on, identically
+        life([0, 1], 1, 5)
+        a0 = sc.op('apply', 0, xs[1])
+        sc.val(a0, spec_apply(E, S, xs[1]), 'incrementally trained actor differs from the toy arithmetic', 'toy-apply')
+        sc.same(sc.op('apply', 1, xs[1]), a0, 'continued life after a state transfer diverges from the twin', 'transfer-differs')
+        # a second generation through the platform
+        sc.val(sc.op('getstate', 1, 1), 'full', 'trained actor exports an empty state', 'trained-state-empty')
+        sc.same(sc.op('fapply', 1, xs[1]), a0, 'Functor with the updated builder and the state preset behaves differently from the twin',
+                'transfer-differs')
         return sc
 
     def _random_scenario(self, toy: Toy) -> Scenario:
@@ -775,12 +979,14 @@ class C13(fw.Check):
         for _ in range(rng.randint(8, 30)):
             o = rng.choice(['update', 'reset', 'bpickle', 'build', 'build', 'train', 'train', 'train', 'apply', 'apply',
                             'params', 'setparams', 'stateful', 'getstate', 'getstate', 'setstate', 'setstate', 'setempty',
-                            'preset', 'pickle', 'fapply', 'ftrain'])
+                            'preset', 'pickle', 'fapply', 'ftrain'] + ([] if toy.trains else ['forge', 'forge']))
             r, k = rng.randint(0, 2), rng.randint(0, 2)
             if o in ('update', 'reset'):
                 sc.op(o, anyargs() if rng.random() < 0.3 else [], anykw())
             elif o == 'bpickle' or o == 'stateful':
                 sc.op(o)
+            elif o == 'forge':
+                sc.op(o, k, anykw())
             elif o == 'build':
                 sc.op(o, r, anyargs() if rng.random() < 0.15 else [], anykw() if rng.random() < 0.3 else {})
             elif o == 'train':
@@ -812,6 +1018,10 @@ class C13(fw.Check):
                 return 'wrapped-stateful-noncallable-attr'
         if sig == 'pickle-wrapped-mandatory-ctor':
             return sig if obs[chk[1]] == ('err', 'TypeError') else 'pickle-actor-fails'
+        if sig == 'pickle-wrapped-hidden-ctor-arg':
+            # narrow: no error, the hyper-parameters survived, only the behaviour (the unreported argument) changed
+            pick = [i for i, op in enumerate(sc.ops) if op[0] == 'pickle']
+            return sig if pick and all(obs[i] == ('ok',) for i in pick) else 'pickle-actor-differs'
         return sig
 
     def _run_batch(self, scenarios: list, oracle: bool = True, compare: bool = True) -> None:
@@ -847,7 +1057,10 @@ class C13(fw.Check):
                                      sc.witness(chk), sig)
 
     def _structured(self, toy: Toy) -> Scenario:
-        return self._stateful_scenario(toy) if toy.trains else self._stateless_scenario(toy)
+        if not toy.trains:
+            return self._stateless_scenario(toy)
+        u = self.rng.random()
+        return self._stateful_scenario(toy, zero=u < 0.08) if u < 0.6 else self._interleaved_scenario(toy)
 
     def correspondence(self):
         import collections
@@ -856,10 +1069,13 @@ class C13(fw.Check):
         scenarios = []
         # corpus: one structured scenario per definition first
         for toy in TOYS:
-            scenarios.append(self._structured(toy))
-        for _ in range(self.n(350, 4200)):
+            scenarios.append(self._stateful_scenario(toy) if toy.trains else self._stateless_scenario(toy))
+            if toy.trains:
+                scenarios.append(self._interleaved_scenario(toy))
+                scenarios.append(self._stateful_scenario(toy, zero=True))
+        for _ in range(self.n(1000, 12000)):
             scenarios.append(self._structured(self.rng.choice(TOYS)))
-        for _ in range(self.n(150, 1800)):
+        for _ in range(self.n(400, 5000)):
             scenarios.append(self._random_scenario(self.rng.choice(TOYS)))
         for i in range(0, len(scenarios), 500):
             self._run_batch(scenarios[i:i + 500])
@@ -869,6 +1085,7 @@ class C13(fw.Check):
         """Widen around the diverging definitions: more structured scenarios, oracle on the real code."""
         names = {d.case['toy'] for d in self.divergences if isinstance(d.case, dict) and 'toy' in d.case} or set(TOY)
         scenarios = [self._structured(TOY[n]) for n in sorted(names) for _ in range(40)]
+        scenarios += [self._stateful_scenario(TOY[n], zero=True) for n in sorted(names) if TOY[n].trains for _ in range(4)]
         before = len(self.violations)
         self._run_batch(scenarios, oracle=True, compare=False)
         self.notes.append(f'failing-input search ({reason}): {len(scenarios)} structured scenarios on {sorted(names)}, '
